@@ -130,6 +130,7 @@ func vNondetStr(name string, universe ...string) string {
 func vChoose(name string, n int) int {
 	k := int(vModelU64(name))
 	if k < 0 || k >= n {
+		vWhere("vChoose " + name)
 		panic(vAssumeFalse{})
 	}
 	return k
@@ -137,7 +138,15 @@ func vChoose(name string, n int) int {
 
 func vAssume(c bool) {
 	if !c {
+		vWhere("vAssume")
 		panic(vAssumeFalse{})
+	}
+}
+
+func vWhere(what string) {
+	if os.Getenv("VERIF_REPLAY_VERBOSE") != "" {
+		_, file, line, _ := runtime.Caller(2)
+		fmt.Printf("VERIF-DEBUG %s false at %s:%d\n", what, file, line)
 	}
 }
 
@@ -149,6 +158,11 @@ func vAssert(c bool, label string) {
 		fmt.Printf("VERIF-ASSERT-FAIL %s\n", label)
 	}
 }
+
+// engine-only observations: no-ops natively
+func vAssertEngine(c bool, label string, detail string) {}
+func vFileDirty(path string) bool                       { return false }
+func vRenamedUnsynced() bool                            { return false }
 
 func vCover(label string)           { vRT.covers = append(vRT.covers, label) }
 func vCoverIf(c bool, label string) {
@@ -181,6 +195,7 @@ func vBound(name string) int {
 // vConcretize returns x, which the engine forces to a concrete value in [0, n) by forking.
 func vConcretize(x uint64, n int) int {
 	if x >= uint64(n) {
+		vWhere("vConcretize")
 		panic(vAssumeFalse{})
 	}
 	return int(x)
